@@ -1,6 +1,6 @@
 (* Property C13, memory half: no execution of a built-in function writes a cell of an array that
    belongs to its input (CallerAddr, RecipientAddr, Arguments[i], ...) or of an array that holds a
-   shared key prefix (e.keyPrefix of every function object, roleKeyPrefix, noncePrefix).
+   shared key prefix (the keyPrefix field of every function object, roleKeyPrefix, noncePrefix).
 
    Three ingredients.
 
@@ -64,11 +64,15 @@ Definition accounted_outside (s : append_site) : bool :=
       && (String.eqb (as_func s) "OutputAccount.MergeOutputAccounts"
           || String.eqb (as_func s) "OutputAccount.MergeStorageUpdates")).
 
-(* the slices the harness inspects by reflection: a PrefixField site must name one of them *)
-Definition prefix_names : list string := ["e.keyPrefix"; "roleKeyPrefix"; "noncePrefix"].
+(* the slices the harness inspects by reflection: EVERY []byte field of every function object (the generator writes a
+   field of the method's receiver as "recv.<field>", whatever the receiver and the field are called) and the two
+   package-level prefixes.  A PrefixField site must name one of them. *)
+Definition prefix_vars : list string := ["roleKeyPrefix"; "noncePrefix"].
+Definition measured_prefix (a : string) : bool :=
+  String.prefix "recv." a || existsb (String.eqb a) prefix_vars.
 Definition known_prefix_arg (s : append_site) : bool :=
   match as_class s with
-  | PrefixField => existsb (String.eqb (as_arg s)) prefix_names
+  | PrefixField => measured_prefix (as_arg s)
   | _ => true
   end.
 
@@ -138,13 +142,12 @@ Proof.
 Qed.
 (* the shared prefixes appended to are exactly the ones the harness measures *)
 Theorem prefix_args_known : forall site, call_append_site site -> as_class site = PrefixField ->
-  In (as_arg site) prefix_names.
+  measured_prefix (as_arg site) = true.
 Proof.
   intros site [Hin Hsc] Hc.
   destruct check_parts as [Ha _]. rewrite forallb_forall in Ha. specialize (Ha site Hin).
   unfold append_site_ok in Ha. rewrite Hsc in Ha. apply andb_prop in Ha. destruct Ha as [_ Hk].
-  unfold known_prefix_arg in Hk. rewrite Hc in Hk. apply existsb_exists in Hk.
-  destruct Hk as [n [Hn He]]. apply String.eqb_eq in He. subst n. exact Hn.
+  unfold known_prefix_arg in Hk. rewrite Hc in Hk. exact Hk.
 Qed.
 (* every site of the whole table is either in the call scope (and safe) or one of the known ones *)
 Theorem sites_accounted : forall site, In site append_sites ->
@@ -169,12 +172,12 @@ Lemma write_sites_safe_in : forall k site, In (k, site) write_sites -> in_call_s
   as_class site = Fresh \/ as_class site = Decoded \/ as_class site = OwnOutput.
 Proof. intros k site H1 H2. exact (write_sites_safe k site (conj H1 H2)). Qed.
 Lemma prefix_args_known_in : forall site, In site append_sites -> in_call_scope site = true ->
-  as_class site = PrefixField -> In (as_arg site) prefix_names.
+  as_class site = PrefixField -> measured_prefix (as_arg site) = true.
 Proof. intros site H1 H2. exact (prefix_args_known site (conj H1 H2)). Qed.
 (* the table is not empty, and outside the call scope it does contain the dangerous shape *)
 Example table_nonvacuous :
   (exists site, In site append_sites /\ in_call_scope site = true /\ as_class site = PrefixField
-                /\ as_arg site = "e.keyPrefix")
+                /\ String.prefix "recv." (as_arg site) = true)
   /\ (exists site, In site append_sites /\ in_call_scope site = false /\ as_class site = Input)
   /\ 20 <= List.length (filter in_call_scope append_sites)
   /\ 5 <= List.length (filter (fun ks => in_call_scope (snd ks)) write_sites).
@@ -185,11 +188,11 @@ Proof.
   { intros f H. apply existsb_exists in H. exact H. }
   split; [|split; [|split]].
   - destruct (Hfind (fun s => in_call_scope s && (match as_class s with PrefixField => true | _ => false end)
-                             && String.eqb (as_arg s) "e.keyPrefix")%bool) as [site [Hin Hs]]; [vm_compute; reflexivity|].
+                             && String.prefix "recv." (as_arg s))%bool) as [site [Hin Hs]]; [vm_compute; reflexivity|].
     exists site. apply andb_prop in Hs as [Hs H3]. apply andb_prop in Hs as [H1 H2].
     split; [exact Hin|split; [exact H1|split]].
     + destruct (as_class site); try discriminate H2; reflexivity.
-    + apply String.eqb_eq; exact H3.
+    + exact H3.
   - destruct (Hfind (fun s => negb (in_call_scope s) && (match as_class s with Input => true | _ => false end))%bool)
       as [site [Hin Hs]]; [vm_compute; reflexivity|].
     exists site. apply andb_prop in Hs as [H1 H2]. split; [exact Hin|split].
@@ -328,7 +331,7 @@ Qed.
 (* a prefix slice WITH spare capacity: one permitted append at a PrefixField site writes the prefix's array *)
 Definition site_prefix : append_site :=
   {| as_file := "builtInFunctions/x.go"; as_func := "x.ProcessBuiltinFunction"; as_ord := 0;
-     as_arg := "e.keyPrefix"; as_back := false; as_class := PrefixField |}.
+     as_arg := "recv.keyPrefix"; as_back := false; as_class := PrefixField |}.
 Example spare_prefix_is_written :
   let pfx := {| s_arr := 0; s_off := 0; s_len := 3; s_cap := 5 |} in
   let m0 := {| m_heap := fun _ => [1; 2; 3; 0; 0]; m_next := 1 |} in
